@@ -4,4 +4,5 @@ AtomsTyping  == {"S1", "F1", "K1", "O1"}
 AtomsVariety == {"S1", "E1", "F1", "F2", "N1", "EF", "K1", "K2"}
 AtomsSmall   == {"S1", "F1", "K1"}
 AtomsPair    == {"S1", "F1", "F2", "K1"}
+AtomsFaults  == {"S1", "F1", "X1", "K1"}
 =============================================================================
